@@ -10,7 +10,7 @@
 (* without leading zeros -- a projection that needs no knowledge of the    *)
 (* type on the harness side.                                               *)
 (***************************************************************************)
-EXTENDS Wire, CCopy, TLC, Json, IOUtils
+EXTENDS Wire, Expr, TLC, Json, IOUtils
 
 Batch == JsonDeserialize(IOEnv.TRACE_FILE)
 Traces == Batch.traces
@@ -164,6 +164,19 @@ Check(tr, e) ==
                      THEN "copy-bits"
                 ELSE IF \E p \in 1..Len(got) : p - 1 < e.di /\ got[p] # plain[p] THEN "copy-clobbers-before"
                 ELSE ""
+      [] e.ev = "OpBody" ->
+            \* one generated optimization-mode function body, decided for all inputs at once
+            IF e.branch = "be" /\ e.uses_byte_view THEN "byte-view-in-big-endian-branch"
+            ELSE IF e.kind = "enc"
+                 THEN LET st == Run(EncState0(t), e.stmts, e.mode)
+                      IN  IF st.wire = ExpectedWire(t) THEN ""
+                          ELSE IF \E p \in 1..Len(st.wire) : st.wire[p] = Conflict THEN "encoder-mixes-bits"
+                          ELSE "encoder-bits"
+                 ELSE LET st == Run(DecState0(t, e.zeroed), e.stmts, e.mode)
+                      IN  IF st.mem = ExpectedMem(t) THEN ""
+                          ELSE IF \E x \in 1..Len(st.mem) : \E b \in 1..Len(st.mem[x]) : st.mem[x][b] = Old
+                               THEN "decoder-relies-on-unzeroed-target"
+                          ELSE "decoder-bits"
       [] e.ev = "SameLayout" ->
             LET a == LayoutSeq(e.t1)
                 b == LayoutSeq(e.t2)
